@@ -1,5 +1,6 @@
 mod build;
 mod exotic;
+mod soak;
 mod gram;
 mod histsim;
 mod hook;
@@ -28,6 +29,7 @@ fn engine_by_name(n: &str) -> Box<dyn Engine> {
         "histsim" => Box::new(histsim::HistSim),
         "recsim" => Box::new(recsim::RecSim),
         "thrsim" => Box::new(thrsim::ThrSim),
+        "soaksim" => Box::new(soak::SoakSim),
         _ => {
             eprintln!("unknown engine {}", n);
             std::process::exit(2)
@@ -245,15 +247,16 @@ fn parent(args: &Args) {
     let timeout = args.num("--timeout").unwrap_or(if tier == "thorough" { 7200 } else { 900 });
     // "c13" = every layer that decides C13 (histories, schedules; Miri in the thorough tier)
     let names: Vec<&str> = match what.as_str() {
-        "c13" => vec!["histsim", "thrsim"],
+        "c13" => vec!["histsim", "thrsim", "soaksim"],
         "c12" => vec!["lifesim", "recsim"],
         _ => vec![what.as_str()],
     };
     let mut runs = Vec::new();
     for n in &names {
         let e = engine_by_name(n);
-        let count = args.num("--cases").unwrap_or_else(|| e.cases(&tier));
-        let r = run_engine(n, &tier, seed, first, count, workers, timeout);
+        // (the soak layer is a fixed case list and needs a process with a single worker thread)
+        let count = if *n == "soaksim" { e.cases(&tier) } else { args.num("--cases").unwrap_or_else(|| e.cases(&tier)) };
+        let r = run_engine(n, &tier, seed, first, count, if *n == "soaksim" { 1 } else { workers }, timeout);
         let stop = !r.lines.is_empty();
         runs.push(r);
         if stop {
@@ -387,6 +390,7 @@ fn coverage_for(engine: &dyn Engine, cj: &Value, planned: u64) -> Value {
         "histsim" => counters["evaluations.history_parses"].as_u64().unwrap_or(cases),
         "recsim" => counters["evaluations.comparisons_with_unrolling"].as_u64().unwrap_or(cases),
         "thrsim" => counters["evaluations.executions"].as_u64().unwrap_or(cases),
+        "soaksim" => counters["evaluations.soak_parses(second parse of a pair, compared with a fresh parser)"].as_u64().unwrap_or(cases),
         _ => counters["evaluations.replica_runs"].as_u64().unwrap_or(cases),
     }
     .max(1);
@@ -395,6 +399,7 @@ fn coverage_for(engine: &dyn Engine, cj: &Value, planned: u64) -> Value {
         "recsim" => "how the self-reference is realised (recursive() / declare-define / expanded k times without Recursive), the handle lifecycle (value, clone after dropping the original, re-boxed clone, second use) and, in 1/8 of the cases, the thread stack size",
         "histsim" => "the operation history (which handle, which wrapper, which input, clone/drop/move order) and the aborted-parse fault (panic injected at the k-th user callback); sources behind Stream/IoInput subjects are SimIter/SimReader",
         "thrsim" => "the thread scheduler (real OS threads released one at a time by a baton; the recording scheduler decides who runs next at every user callback and every source call), the sources (SimIter/SimReader), the aborted-parse fault",
+        "soaksim" => "the operation history: two parses through one long-lived value with exactly 255 / 256 / 65 535 / 65 536 (... thorough: more) parses of an unrelated parser in between, in a process with a single worker thread",
         _ => "Read+Seek device (SimReader), pull iterators (SimIter, SimCloneIter); every decision from the case PRNG / the recorded trace",
     };
     let child_wall = cj["wall_s"].as_f64().unwrap_or(1.0).max(1e-9);
@@ -485,6 +490,7 @@ fn rule_text(engine: &str) -> String {
         "recsim" => "case = a generated grammar containing a recursive definition with guarded self-references (the C01/C02/C08 node set inside and around it, no memoization) + 1-3 inputs of <= 40 tokens + a handle lifecycle (value | clone, drop original | re-box a clone, drop the others | use twice); the grammar is built three ways: recursive(), Recursive::declare()+define(), and with the self-reference expanded (input length + 2) times using plain combinators and no Recursive; evaluations = comparisons of a recursive form with the unrolling (parse and check), full equality incl. every error. distinct_nontrivial = distinct (grammar, outcomes) with an input of >= 3 tokens".into(),
         "histsim" => "case = one grammar value (generated Boxed grammar for &[u8] / &str / Stream / IoInput, the same grammar as a tree of &dyn references, a statically typed zoo grammar, or a Cache) + a pool of 2-5 inputs + a seeded history of <= 13 operations (parse / check / *_with_state through value, &, &&, Box, Rc, Arc, boxed(), Either, stacks of those, Cache::get(); derive wrapper, clone, drop incl. the original, move; aborted parse = panic injected at the k-th user callback; re-entrant parse = a second parse started inside the k-th user callback of the first); a third of the generated subjects are built from clones of every combinator node, a tenth are composed through &dyn references at every node and compared with the boxed() build; evaluations = parses performed inside histories, each compared with a brand-new parser on the same input (references computed before and after the history, on pristine OS threads in 1/8 of the cases). distinct_nontrivial = distinct (subject, history, outcomes) digests where the history contains an accepted AND a rejected parse, or an aborted parse that fired followed by another parse, AND either a drop/move/derive or >= 3 parses".into(),
         "thrsim" => "case = one shared Sync parser (generated grammar as &dyn Parser+Send+Sync over &[u8] / Stream / IoInput, zoo grammar as Arc<dyn Parser+Send+Sync>, or a static Cache) + 2-8 client tasks with 1-4 operations each (1/3 of the cases abort some operations mid-parse) + 10 (quick) / 16 (thorough) schedules: sequential, round-robin, then seeded uniform-random / sticky-random / PCT-style; a context switch can happen at every user callback and every source call; evaluations = executions (one schedule of one case), each operation compared with a brand-new parser used alone. distinct_nontrivial = distinct (case, switch sequence) with >= 2 context switches that pre-empt a client in the middle of a parse".into(),
+        "soaksim" => "case = one zoo grammar; for every gap and every (first, second) input pair (each input after a same-length partner where the pool has one): parse the first input, run `gap` parses of an unrelated parser, parse or check the second input through the same value; evaluations = second parses, each compared with a brand-new parser. Deterministic (no PRNG draw): the case list is the zoo".into(),
         "lifesim" => "case = seeded (template, recursive()/declare-define form, 0-12 neutral wrappers between two recursion guards, thread stack size 64 KiB..8 MiB, nesting depth: exhaustive 0..64 then log-uniform up to 10^4 / 10^5 / 10^6, input variant well-formed | truncated | wrong token | surplus token, lifecycle history of <= 11 ops: clone, drop (incl. the original handle), boxed, parse, check, define-again); evaluations = cases. distinct_nontrivial = distinct cases with (depth >= 1000 on a stack <= 256 KiB) OR (>= 3 lifecycle ops with a drop or define-again before the final parse)".into(),
         _ => String::new(),
     }
@@ -649,6 +655,25 @@ fn replay_file(p: &Path, verbose: bool) -> i32 {
                 Some((class, detail)) => {
                     if verbose {
                         println!("reproduced property=C12 class={}\n {}", class, detail);
+                    }
+                    1
+                }
+                None => {
+                    if verbose {
+                        println!("not reproduced");
+                    }
+                    0
+                }
+            }
+        }
+        "soaksim" => {
+            let z = v["soak"]["z"].as_u64().unwrap_or(0) as usize;
+            let gap = v["soak"]["gap"].as_u64().unwrap_or(0) as u32;
+            let (i, j) = (v["soak"]["first"].as_u64().unwrap_or(0) as usize, v["soak"]["second"].as_u64().unwrap_or(0) as usize);
+            match soak::run(z, &[gap], Some((gap, i, j))).2 {
+                Some(m) => {
+                    if verbose {
+                        println!("reproduced property=C13 class=soak-mismatch\n zoo::{} gap={} first={} second={} mode={:?}\n expected={}\n observed={}", zoo::ZOO_NAMES[z % zoo::ZOO_NAMES.len()], gap, i, j, m.mode, m.expected.brief(), m.observed.brief());
                     }
                     1
                 }
